@@ -60,7 +60,7 @@ def genFormatter (pb : List PbField) (errPct : Nat := 8) : G RawConfig := do
     match (← below 4) with
     | 0 => raw := { raw with fields := raw.fields ++ ["no_such_field"] }
     | 1 => raw := { raw with key := raw.key ++ ["no_such_key"] }
-    | 2 => raw := { raw with render := raw.render ++ [("bytes", ← pick ["network", "type", "bogus"])] }
+    | 2 => raw := { raw with render := raw.render.filter (fun e => e.1 != "bytes") ++ [("bytes", ← pick ["network", "type", "bogus"])] }
     | _ => raw := { raw with ports := [⟨"udp", ← pick ["dst", "up"], 4789, ← pick ["nosuchparser", "vxlan"]⟩] }
   pure raw
 
